@@ -331,6 +331,39 @@ fn views(out: &mut Out, rng: &mut Rng, thorough: bool) {
 				}
 			}
 		}
+		// the mutable handle positioned at every earlier size (no rewind of the backend, which holds
+		// more): the same root, peaks and proofs, and nothing at or beyond its size
+		for (k, &s) in view_sizes.iter().enumerate() {
+			if n > 24 && !rng.chance(1, 5) && s != size {
+				continue;
+			}
+			let p = PMMR::at(&mut ba, s);
+			out.line(&format!("pmmr vroot {}", s), &root_str(p.root()));
+			out.line(&format!("pmmr vpeaks {}", s), &hashes(&p.peaks()));
+			for i in 0..(k as u64 + 2).min(n) {
+				if k > 12 && !rng.chance(1, 4) && i + 2 < k as u64 {
+					continue;
+				}
+				let pos = pmmr::insertion_to_pmmr_index(i);
+				let pr = proof_line(out, &p, s, pos);
+				if i < k as u64 {
+					let ok = match (&pr, p.root()) {
+						(Some(pr), Ok(root)) => pr.verify(root, &elems[i as usize], pos).is_ok(),
+						_ => false,
+					};
+					if !ok {
+						out.raw(&format!("#ORACLE-FAIL C07 proof from a handle at size {} for present leaf {} does not verify against its root", s, pos));
+					}
+				} else if pr.is_some() || p.get_hash(pos).is_some() || p.get_data(pos).is_some() {
+					out.raw(&format!("#ORACLE-FAIL C07 a handle at size {} serves position {} which is not part of that MMR (proof {}, hash {}, data {})", s, pos, pr.is_some(), p.get_hash(pos).is_some(), p.get_data(pos).is_some()));
+				}
+			}
+			for pos in [s, s + 1, s + 2, size.saturating_sub(1), size, u64::MAX / 2] {
+				if pos >= s && (p.get_hash(pos).is_some() || p.get_data(pos).is_some()) {
+					out.raw(&format!("#ORACLE-FAIL C07 a handle at size {} returns a hash or an element for position {}", s, pos));
+				}
+			}
+		}
 		// the same elements over a hash-only backend (no element data kept): size, root, peaks and
 		// the proof of every leaf are those of the full backend
 		{
